@@ -20,8 +20,13 @@
   O-REPLY     spawned branch: an `Err` from `dispatch_call_to_iface` reaches completion only through an awaited
               `Connection::reply_dbus_error`; same for the inline path in `dispatch_call`
 
-Not decided: what `#[interface(spawn = false)]` expands to (proc-macro output for user crates), ordering
-among tasks once spawning is enabled, behaviour of the executor.
+  O-EXPAND    (thorough tier / ZCHECK_K6=1; fixture crate /verif/fixtures/ifaces, K6) the expansion of
+              `#[interface(spawn = false)]` makes `Interface::spawn_tasks_for_methods` return the constant `false`,
+              the default expansion returns `true`; the generated `call` / `call_mut` / `get` / `set` code of the
+              spawn-less interface spawns or detaches nothing itself; every other generated impl returns a constant
+
+Not decided: ordering among tasks once spawning is enabled, behaviour of the executor; interfaces of user crates
+are represented by the fixture crate (every expansion is produced by the same macro code).
 """
 from .. import mir, awaits as aw
 from .. import lib_cflow as cf
@@ -123,8 +128,8 @@ def run(ctx):
         "dispatch_call -> dispatch_method_call_try -> dispatch_call_to_iface -> handler future awaits the next in place and spawns "
         "nothing; the loop coroutine is spawned only inside get_or_init(object_server_dispatch_task); the chain's functions have "
         "no other callers; Err results are answered through reply_dbus_error on both branches.")
-    ctx.not_decided = ("the code `#[interface(spawn = false)]` generates for user crates; ordering among spawned tasks; "
-                       "fairness of the executor and of the interface RwLock.")
+    ctx.not_decided = ("ordering among spawned tasks; fairness of the executor and of the interface RwLock; expansions of "
+                       "`spawn = false` are inspected on the fixture crate of K6 (thorough tier), not on user crates.")
     f = ctx.facts("K1")
     cf.check_ext_enums(ctx, f, [RESULT, "core::option::Option"])
 
@@ -225,7 +230,14 @@ def run(ctx):
 
     # ---------------------------------------------------------------- O-FRAMES
     disp = [g for g in cf.fn_coroutines(f, CONN + "::start_object_server") if mir.calls_to(g, "ObjectServer::dispatch_call")]
-    D = ctx.one(disp, "dispatcher coroutine (calls ObjectServer::dispatch_call)")
+    ctx.need(disp, "dispatcher coroutine (calls ObjectServer::dispatch_call)")
+    loops = [g for g in disp if any(a.call is not None and is_next(a.call) for a in aw.awaits(f, g))]
+    for g in disp:
+        if g not in loops:
+            ctx.ob("O-FRAMES", "dispatch_call-only-from-the-stream-loop:" + g.id, False,
+                   "ObjectServer::dispatch_call is also issued from a coroutine that does not pull the method-call stream "
+                   "(a handed-off / detached task): calls can then be handled concurrently and out of arrival order", g.where)
+    D = ctx.one(loops, "dispatcher loop coroutine (awaits stream.next() and calls ObjectServer::dispatch_call)")
     DC = cf.real_coroutine(ctx, f, OS + "::dispatch_call", lambda b: bool(mir.calls_to(b, "ObjectServer::dispatch_method_call_try")),
                            "coroutine of dispatch_call that calls dispatch_method_call_try")
     DI = top_coroutine(ctx, f, OS + "::dispatch_call_to_iface", "coroutine of dispatch_call_to_iface")
@@ -343,3 +355,67 @@ def run(ctx):
     for sp in spawned:
         check_reply(ctx, f, sp, "spawned:", "ObjectServer::dispatch_call_to_iface")
     check_reply(ctx, f, DC, "inline:", "ObjectServer::dispatch_method_call_try")
+
+    # ---------------------------------------------------------------- O-EXPAND
+    expand(ctx)
+
+
+# declared `spawn` attribute of the fixture interfaces (fixtures/ifaces/src/lib.rs)
+FIXTURE_SPAWN = {"zverif_ifaces::Ordered": False, "zverif_ifaces::Spawning": True}
+
+
+def returned_consts(body):
+    """constants the body can return (None when some returned value is not a constant)"""
+    out = set()
+    for bi, i, pl, rv, ln in mir.assignments(body):
+        if pl[0] != 0 or pl[1]:
+            continue
+        k = mir.resolve_const(body, rv[1]) if rv[0] == "use" else None
+        if k is None or "v" not in k:
+            return None
+        out.add(k["v"])
+    return out
+
+
+def expand(ctx):
+    from .. import lib_iface as LI
+    cfgs = LI.generated_configs(ctx)
+    if "K6" not in cfgs:
+        ctx.note("quick tier: the `spawn = false` expansion (O-EXPAND, fixture crate K6) is analysed in the thorough tier "
+                 "or with ZCHECK_K6=1")
+        return
+    its = LI.interfaces(ctx, cfgs)
+    seen = {}
+    for it in its:
+        if "spawn_tasks_for_methods" not in it.m:
+            ctx.ob("O-EXPAND", "flag-fn-present:" + it.key, False, "Interface impl without spawn_tasks_for_methods body "
+                   "(default trait method?)", it.where)
+            continue
+        b = it.m["spawn_tasks_for_methods"]
+        ks = returned_consts(b)
+        ok = ks is not None and len(ks) == 1 and all(isinstance(k, bool) or k in (0, 1) for k in ks)
+        val = bool(list(ks)[0]) if ok else None
+        seen[it.key] = val
+        want = FIXTURE_SPAWN.get(it.key)
+        if want is None:
+            ctx.ob("O-EXPAND", "flag-is-constant:" + it.key, ok,
+                   "spawn_tasks_for_methods() returns the constant %s" % val if ok else
+                   "spawn_tasks_for_methods() does not return one constant (%s)" % (ks,), b.where)
+        else:
+            ctx.ob("O-EXPAND", "flag-matches-attribute:" + it.key, ok and val == want,
+                   "declared spawn = %s, spawn_tasks_for_methods() returns %s" % (str(want).lower(), val) if ok and val == want else
+                   "declared spawn = %s but spawn_tasks_for_methods() returns %s" % (str(want).lower(), ks), b.where)
+        if want is False:
+            n = 0
+            for nm in ("call", "call_mut", "get", "get_all", "set", "set_mut"):
+                mb = it.m.get(nm)
+                if mb is None:
+                    continue
+                for g in LI.family(it.f, mb):
+                    n += 1
+                    sp = [c for c in mir.calls(g) if is_spawn(c) or is_detach(c)]
+                    ctx.ob("O-EXPAND", "generated-code-spawns-nothing:%s:%s" % (it.key, g.id.split("::", 1)[-1]), not sp,
+                           "no Executor::spawn / Task::detach" if not sp else "generated code spawns a task", sp[0].where if sp else g.where)
+            ctx.floor("O-EXPAND", "generated bodies of %s inspected" % it.key, n, 6)
+    for k in FIXTURE_SPAWN:
+        ctx.need([k] if k in seen else [], "fixture interface " + k, "O-EXPAND")
